@@ -4,6 +4,7 @@ FuturesPerClient = 2
 MaxThreads = 2
 Cap = 1
 AllowRetire = TRUE
+FixRetire = TRUE
 INVARIANTS AtMostOnce JoinAfterDone QueueOK
 PROPERTY Live
 CONSTANT defaultInitValue = defaultInitValue
